@@ -345,7 +345,17 @@ SHAPES = {
 }
 
 
+MULTI = {
+    "multi_same_named_methods": ["class TestA:", "    def test_t(self):", "        %s", "", "", "class TestB:", "    def test_t(self, a):", "        %s", ""],
+    "multi_two_functions": ["def test_t():", "    %s", "", "", "def test_u(a):", "    %s", ""],
+    "multi_two_uses": ["def test_t(a):", "    %s", "    y = 2", "    %s", ""],
+}
+
+
 def c17_fix_text(cs):
+    if cs["shape"] in MULTI:
+        e = USE_EXPR[cs["use"]]
+        return "\n".join(["import pytest", "", ""] + [l % e if "%s" in l else l for l in MULTI[cs["shape"]]]) + "\n"
     sig, ind = SHAPES[cs["shape"]]
     ind = ind or ""
     e = USE_EXPR[cs["use"]]
@@ -441,6 +451,29 @@ def check_c17(tier):
             srv.initialize(root)
             srv.did_open(cpath, FIX_TXT + "\n\n@pytest.fixture\ndef z():\n    return 2\n")
             diags = srv.did_open(tpath, text)
+            if c["cs"]["shape"] in MULTI:
+                und = [d for d in diags if d.get("code") == "undeclared-fixture"]
+                nl = text.count("\n")
+                acts = srv.request("textDocument/codeAction", {"textDocument": {"uri": lsp.path_to_uri(tpath)},
+                                                               "range": {"start": {"line": 0, "character": 0}, "end": {"line": nl, "character": 0}},
+                                                               "context": {"diagnostics": und}}) or []
+                out["multi"] = {"diags": und, "actions": acts}
+                allt = text
+                edits = []
+                for a in acts:
+                    for k, v in ((a.get("edit") or {}).get("changes") or {}).items():
+                        edits += v
+                # identical edits (two warnings of one function) are applied once
+                uniq = []
+                for e in edits:
+                    if e not in uniq:
+                        uniq.append(e)
+                new = apply_edits(allt, uniq)
+                out["multi"]["fixed_text"] = new
+                if new is not None:
+                    out["multi"]["diags_after"] = srv.did_change(tpath, new)
+                out["alive"] = srv.alive()
+                return out
             use_line = next(i for i, l in enumerate(text.split("\n")) if USE_EXPR[c["cs"]["use"]] in l)
             und = [d for d in diags if d.get("code") == "undeclared-fixture" and d["range"]["start"]["line"] == use_line]
             out["diags"] = und
@@ -486,6 +519,42 @@ def check_c17(tier):
         ex = {"case": cs, "text": r["text"]}
         if "error" in r:
             V.violation(dict(ex, error=r["error"]), "server died or stopped answering during diagnostics / code action / completion")
+            continue
+        if "multi" in r:
+            m = r["multi"]
+            tree0 = _ast.parse(r["text"])
+            fns = [nd for nd in _ast.walk(tree0) if isinstance(nd, (_ast.FunctionDef, _ast.AsyncFunctionDef))]
+
+            def fn_of(line0):
+                best = None
+                for nd in fns:
+                    if nd.lineno - 1 <= line0 <= nd.end_lineno - 1 and (best is None or nd.lineno > best.lineno):
+                        best = nd
+                return best
+            n_warn = len(m["diags"])
+            e2 = dict(ex, warnings=[d["range"]["start"]["line"] for d in m["diags"]], actions=len(m["actions"]), result=m.get("fixed_text"))
+            if n_warn != 2:
+                V.violation(e2, "expected two undeclared-fixture warnings in the document")
+                continue
+            for a in m["actions"]:
+                ad = (a.get("diagnostics") or [None])[0]
+                if ad is None:
+                    continue
+                target = fn_of(ad["range"]["start"]["line"])
+                for k, v in ((a.get("edit") or {}).get("changes") or {}).items():
+                    for ed in v:
+                        f2 = fn_of(ed["range"]["start"]["line"])
+                        if target is None or f2 is None or f2.lineno != target.lineno:
+                            V.violation(dict(e2, warning_line=ad["range"]["start"]["line"], edit=ed),
+                                        "a quick fix offered for one warning edits another function than the one the warning is in")
+            if m.get("fixed_text") is not None:
+                try:
+                    _ast.parse(m["fixed_text"])
+                    still = [d for d in (m.get("diags_after") or []) if d.get("code") == "undeclared-fixture"]
+                    if still:
+                        V.violation(dict(e2, diagnostics=still), "warnings survive applying every offered quick fix and re-analysis")
+                except SyntaxError as se:
+                    V.classify(c17_fix_dev(cs, "syntax", "quick fix"), dict(e2, syntax_error=str(se)), "applying the offered quick fix produces a syntactically invalid document")
             continue
         tree0 = _ast.parse(r["text"])
         for label, new in (("quick fix", r.get("fixed_text")),
